@@ -45,6 +45,19 @@ def as_iterable(rnd, xs):
     return iter(list(xs))
 
 
+def same_list(o, rnd, xs):
+    """the caller's ONE list object, edited in place to hold `xs` and passed again (lengths permitting) — what a call means is
+    what the list holds now, never which object it is; otherwise any iterable form"""
+    sh = getattr(o, "shared", None)
+    if sh is not None and len(sh) == len(xs) and xs and rnd.random() < 0.5:
+        sh[:] = list(xs)
+        return sh
+    if rnd.random() < 0.3:
+        o.shared = list(xs)
+        return o.shared
+    return as_iterable(rnd, xs)
+
+
 def dump_impl(g) -> tuple[list[bool], list[Fraction], list[Fraction]]:
     return ([bool(x) for x in g.are_values_known()], [frac(x) for x in g.get_lower_bounds()],
             [frac(x) for x in g.get_upper_bounds()])
@@ -117,7 +130,7 @@ def run(tier: str, budget: Budget, rnd, repo_mod) -> StreamResult:
                     o.spec.pop(c, None); o.det.pop(c, None)
                 elif op == "setvalues":
                     line = f"tab setvalues {o.name} {nlist(cs)} {rlist(vals)}"
-                    g.set_values(fvals, as_iterable(rnd, coal))
+                    g.set_values(fvals, same_list(o, rnd, coal))
                     for cc, vv in zip(cs[:len(vals)], vals):
                         o.spec[cc] = vv; o.det.pop(cc, None)
                 elif op == "setvalues_all":
@@ -129,7 +142,7 @@ def run(tier: str, budget: Budget, rnd, repo_mod) -> StreamResult:
                 elif op == "setknown":
                     line = f"tab setknown {o.name} {nlist(cs)} {rlist(vals)}"
                     o.spec.clear(); o.spec[0] = Fraction(0); o.det.clear()      # the reset happens first
-                    g.set_known_values(as_iterable(rnd, [float(x) for x in vals]), as_iterable(rnd, coal))
+                    g.set_known_values(as_iterable(rnd, [float(x) for x in vals]), same_list(o, rnd, coal))
                     for cc, vv in zip(cs[:len(vals)], vals):
                         o.spec[cc] = vv
                 elif op == "setknown_all":
@@ -141,7 +154,7 @@ def run(tier: str, budget: Budget, rnd, repo_mod) -> StreamResult:
                 elif op in ("bounds_hi", "bounds_lo"):
                     w = 1 if op == "bounds_hi" else 0
                     line = f"tab bounds {o.name} {'hi' if w else 'lo'} {nlist(cs)} {rlist(vals)}"
-                    (g.set_upper_bounds if w else g.set_lower_bounds)(fvals, as_iterable(rnd, coal))
+                    (g.set_upper_bounds if w else g.set_lower_bounds)(fvals, same_list(o, rnd, coal))
                     for cc in cs[:len(vals)]:
                         if cc not in o.spec:
                             o.det.setdefault(cc, [False, False])[w] = True
@@ -194,7 +207,7 @@ def run(tier: str, budget: Budget, rnd, repo_mod) -> StreamResult:
                         if ok_c and c in o.spec:
                             res.violation("get_value raised for a known coalition", {"n": n, "history": hist, "c": c})
                     try:
-                        a = g.get_values(as_iterable(rnd, coal))
+                        a = g.get_values(same_list(o, rnd, coal))
                         script.add(f"tab getvalues {o.name} {nlist(cs)}", rlist(a))
                         if all(x < N for x in cs) and not all(x in o.spec for x in cs):
                             res.violation("get_values returned numbers for unknown coalitions", {"n": n, "history": hist, "cs": cs})
